@@ -30,7 +30,13 @@ def split_netstring(data, numstrings,
     assert numstrings >= 0
     while position < len(data):
         colon = data.index(b":", position)
-        length = int(data[position:colon])
+        length_s = data[position:colon]
+        # The length must be a canonical decimal number: ASCII digits only
+        # (int() alone would also accept signs, whitespace, underscores) and
+        # no leading zeros.
+        if not length_s.isdigit() or (length_s != b"0" and length_s.startswith(b"0")):
+            raise ValueError("malformed netstring length %r" % (length_s,))
+        length = int(length_s)
         string = data[colon+1:colon+1+length]
         assert len(string) == length, (len(string), length)
         elements.append(string)
